@@ -63,6 +63,10 @@ fn main() {
         only_stage: stage,
         thorough: tier == "thorough",
     };
+    if prop == "C07CHILD" {
+        mon_c07::child(cfg.only_case.expect("--case"));
+        return;
+    }
     if prop == "C16CHILD" || prop == "C16REF" {
         let seed = cfg.only_case.expect("--case");
         if prop == "C16CHILD" {
